@@ -88,6 +88,21 @@ def big_out(rec):
 def run_big(lib, op, a, b, a_text, b_text, mode):
     """a op b on integers a double cannot hold, each given as a number or as text spelling it"""
     p = lib.Parser()
+    if float(a) == a:
+        # the float that equals a was an operand a moment ago: a is still the integer it is
+        p.set_variable('vf', float(a))
+        p.parse('vf+0')
+        p.parse('vf&""')
+    if op == '&':
+        suffix = ['', 'x', ' kg', '0'][abs(a) % 4]
+        p.set_variable('va', a)
+        p.set_variable('vs', suffix)
+        r1, r2 = p.parse('va&vs'), p.parse('vs&va')
+        tx = lambda r: [ord(c) for c in r['result']] if r['error'] is None and isinstance(r['result'], str) else [0]
+        return {'kind': 'big', 'op': '&', 'a': signed(a), 'b': signed(0), 'k': 0, 'suffix': [ord(c) for c in suffix],
+                'txt': tx(r1), 'txt2': tx(r2), 'formula': 'va&vs', 'out': {'int': False, 'neg': False, 'ds': [48]},
+                'out2': {'int': False, 'neg': False, 'ds': [48]},
+                'in': {'op': '&', 'a': str(a), 'b': '0', 'a_text': False, 'b_text': False, 'mode': 'var'}}
     va = str(a) if a_text else a
     vb = str(b) if b_text else b
     if mode == 'var':
@@ -118,7 +133,12 @@ def big_cases(rng, n):
     for _ in range(n):
         a = rng.choice([2 ** 53 + 1, 10 ** 16 + 1, 10 ** 17 + 7, rng.randint(2 ** 53, 10 ** 30), rng.randint(10 ** 15, 10 ** 19)])
         a = a if rng.random() < 0.7 else -a
-        op = rng.choice(['+', '-', '+', '-', '*'])
+        op = rng.choice(['+', '-', '+', '-', '*', '&'])
+        if rng.random() < 0.15:
+            a = rng.choice([10 ** 15, 10 ** 16, 2 ** 53, 2 ** 60, 1234567890123456, 10 ** 20, 123456789012345678]) * rng.choice([1, -1])
+        if op == '&':
+            out.append((op, a, 0, False, False, 'var'))
+            continue
         if op == '*':
             b = rng.choice([1, 2, 3, 7, 10, -1, -5, 101, 9999])
         else:
@@ -177,6 +197,12 @@ def main(tier, replay=None):
                             rng.choice(['var', 'cell']), follow))
     run.extra['follow_up_observations_on_the_same_host_arrays'] = len(follow)
     obs += follow
+    # equal-length numeric arrays under / with zeros among the divisors: the error is that element's, not the whole result's
+    for _ in range(150 if quick else 4000):
+        n = rng.randint(2, 5)
+        xs = {'t': 'arr', 'a': [enc(rng.randint(-9, 9)) for _ in range(n)]}
+        ys = {'t': 'arr', 'a': [enc(rng.choice([0, 0, 1, 2, -4, rng.randint(-9, 9)])) for _ in range(n)]}
+        obs.append(run_pair(lib, rng.choice(['/', '/', '*', '-']), xs, ys, rng.choice(['var', 'cell']), follow))
     # the recorded finding's witness and its mirror image
     w = ({'t': 'arr', 'a': [{'t': 'arr', 'a': [{'t': 'blank'}]}]}, {'t': 'arr', 'a': [enc('qq#'), {'t': 'blank'}, {'t': 'blank'}]})
     for op in ('+', '*'):
